@@ -497,6 +497,25 @@ def run(prog, rep, tier):
         elif not any(b.dominates(cl.bb, j.bb) and cl.bb not in L for cl in clears):
             rep.violation(R64, PL + "|join|before-clear", "processing_loop: JoinHandle::join is not preceded by dropping all receivers; a worker blocked in send would never finish")
 
+    # (c2) until every source is drained the coordinator waits for workers only by receiving: a wait on
+    # worker *termination* (is_finished polling, sleep/park/yield loops) while channels are bounded and
+    # nobody receives can never end once enough workers are blocked in send.
+    WAITS = ("is_finished", "sleep", "park", "park_timeout", "yield_now", "sleep_until", "wait", "wait_timeout", "wait_while")
+    waits = []
+    for wb in [b] + list(prog.closures_in(b.path)):
+        for c in wb.live_calls():
+            nm_ = (c.o or c.d).split("::")[-1]
+            if nm_ in WAITS and ("std::thread" in c.d or "JoinHandle" in c.d or "Condvar" in c.d or "Barrier" in c.d):
+                after_drain = wb is b and c.bb not in L and any(b.dominates(cl.bb, c.bb) and cl.bb not in L for cl in clears)
+                waits.append((wb.path.split("::")[-1], nm_, c.line, after_drain))
+    rep.examined(R64, PL + "|waits-on-worker-progress", sample={"thread_wait_calls": waits, "join_sites_after_drain": len(joins)})
+    if not joins:
+        raise CheckerError("processing_loop: no JoinHandle::join (positive control of the thread-wait inventory)")
+    for w_ in waits:
+        if not w_[3]:
+            rep.violation(R64, PL + "|waits-on-worker-progress|" + w_[1], "processing_loop (%s, line %d): the coordinator waits on %s() before every source is drained; workers blocked on a full channel "
+                          "never finish while the coordinator is not receiving, so with enough such sources the run deadlocks" % (w_[0], w_[2], w_[1]))
+
     # (d) the coordinator waits without a time limit: a source may be silent for as long as its file takes to read
     TIMED = ("select_timeout", "select_deadline", "try_select", "ready_timeout", "ready_deadline", "try_ready", "recv_timeout", "recv_deadline", "try_recv")
     rmb = prog.body(PL + "::recv_many_chan")
@@ -677,6 +696,31 @@ def run(prog, rep, tier):
     if leak:
         rep.violation(R68, "%s|spawn-failure" % PL, "processing_loop: when a worker thread cannot be spawned its channel is removed but the source stays registered as awaiting FileInfo; "
                       "the print gate never opens and nothing is printed for the other sources (4 files under `ulimit -u` leaving room for 3 threads: 0 lines, exit 0)")
+
+    # ------------------------------------------------------------ R6.10 a worker's datum is handed over, however long that takes
+    # The channel is bounded; a worker that is ahead of the printing thread must wait.  `send` waits
+    # and fails only when the receiver is gone (the run is over for that source).  try_send /
+    # send_timeout / send_deadline fail *with the datum in hand* when the coordinator is merely slow
+    # (a pager, a slow pipe, another source that takes long to open): the message is lost and stdout
+    # depends on timing.
+    R610 = rep.rule("R6.10", "every send on the worker->coordinator channel is the blocking, lossless Sender::send")
+    LOSSY = ("try_send", "send_timeout", "send_deadline")
+    n610 = 0
+    for sb_ in prog.bodies():
+        if not (sb_.path.startswith("s4::") or sb_.path.startswith("s4lib::")) or "_tests" in sb_.path:
+            continue
+        for c in sb_.live_calls():
+            if "Sender" not in c.d or "ChanDatum" not in (c.callee.get("self") or ""):
+                continue
+            nm_ = c.d.split("::")[-1]
+            if nm_ in ("send",) + LOSSY:
+                n610 += 1
+                rep.examined(R610, "%s|%s" % (sb_.path, nm_), sample={"site": sb_.path, "line": c.line, "call": nm_})
+                if nm_ in LOSSY:
+                    rep.violation(R610, "%s|%s" % (sb_.path, nm_), "%s (line %d) sends with %s(): when the bounded channel stays full past the limit the call fails with the datum in hand, "
+                                  "so a message (or the file's summary) is dropped whenever the printing thread is slower than the worker; the output depends on timing" % (sb_.path, c.line, nm_))
+    if n610 == 0:
+        raise CheckerError("R6.10: no send on a Sender<ChanDatum> found")
 
     return rep.finish(
         "Static necessary-condition check of the coordination protocol: typestate fixpoint of the worker protocol over all CFG paths of the four "
